@@ -153,6 +153,7 @@ type eel struct {
 	inner   *eel
 	prefix  bool // render with xenc:/ds: prefixes or in default namespaces
 	alt     bool // with prefix: use the prefixes enc: / dsig: instead (a peer is free to choose its prefixes)
+	chain   int  // further certificates after the first one (the recipient's issuer chain): 1 in the same X509Data, 2 in a second X509Data; only the first certificate is the recipient hint
 }
 
 func strp(s string) *string { return &s }
@@ -230,6 +231,13 @@ func (e *eel) xml(tag string) *etree.Element {
 				} else {
 					c.SetText(fix.CertB64(map[int]string{1: "rsa_a", 2: "rsa_b"}[e.certID]))
 				}
+			}
+			switch e.chain {
+			case 1:
+				xd.CreateElement(d + "X509Certificate").SetText(fix.CertB64("rsa_c"))
+				xd.CreateElement(d + "X509Certificate").SetText(fix.CertB64("ec_256"))
+			case 2:
+				ki.CreateElement(d + "X509Data").CreateElement(d + "X509Certificate").SetText(fix.CertB64("rsa_c"))
 			}
 		}
 	}
@@ -575,9 +583,14 @@ func runC11(c *Ctx) {
 					if !c.Thorough() && di > 1 && cert.k != certRsa && cert.k != certAbsent {
 						continue
 					}
-					ek := &eel{method: strp(ta.uri), dg: strp(da.uri), cert: cert.k, certID: cert.id, cv: cvBytes, cvBytes: w, prefix: true}
-					add("rsa_wrapped", key, &eel{method: strp(a0.uri), cv: cvBytes, cvBytes: dataCT, inner: ek, prefix: true},
-						map[string]string{"transport": ta.name, "digest": da.uri, "cert": fmt.Sprint(cert.k, cert.id), "key": keyCoq(key)})
+					for chain := 0; chain < 3; chain++ {
+						if chain > 0 && (di > 0 || cert.k == certAbsent) {
+							continue
+						}
+						ek := &eel{method: strp(ta.uri), dg: strp(da.uri), cert: cert.k, certID: cert.id, cv: cvBytes, cvBytes: w, prefix: true, chain: chain}
+						add("rsa_wrapped", key, &eel{method: strp(a0.uri), cv: cvBytes, cvBytes: dataCT, inner: ek, prefix: true},
+							map[string]string{"transport": ta.name, "digest": da.uri, "cert": fmt.Sprint(cert.k, cert.id), "key": keyCoq(key), "chain": fmt.Sprint(chain)})
+					}
 				}
 			}
 		}
@@ -946,6 +959,7 @@ func runC10(c *Ctx) {
 				ek.dg = nil
 			}
 			ek.alt = (ti+di)%2 == 1
+			ek.chain = (ti + di) % 3
 			obs, out := implDecrypt(rsaKey(1), (&eel{method: strp(a0.uri), cv: cvBytes, cvBytes: dataCT, inner: ek, prefix: true, alt: ek.alt}).xml("EncryptedData"))
 			mgf := "mgf_sha1_is_label_hash"
 			if ta.name != "Pkcs1v15" && di != 0 {
